@@ -94,6 +94,11 @@ class Owner:
             elif x < 0.36:
                 # two spellings of "the same" text are two different kids (octet-wise comparison): twins land in one set
                 kid = ("caf\u00e9-%d" if self.counter % 2 else "cafe\u0301-%d") % (self.counter // 2)
+            elif x < 0.46:
+                # a kid that looks like a thumbprint without being this key's: a predecessor's thumbprint kept for continuity,
+                # an x5t#S256, a random token of that length
+                other = K.make_kind(r.sub("other"), kty, crv, None, avoid=None)
+                kid = self.rng.pick([rk_.thumbprint(other), b64.enc(r.sub("kid").bytes_(32)), b64.enc(r.sub("kid").bytes_(48)), b64.enc(r.sub("kid").bytes_(64))])
             else:
                 kid = "key-%d" % self.counter
         params = {"kid": kid}
@@ -588,6 +593,39 @@ def _world(rng, tier, index, res, tr, ch):
                  {"op": "appended-key", "keys": [rk.to_jwk(first, True), rk.to_jwk(second, True)]})
             return
 
+    def mixed_set():
+        """a set holding what a service really holds: its own private keys, partners' public keys, a shared secret.  The default
+        export writes every key as the key itself would write it, and importing that document gives every key back as it was"""
+        kinds = [("EC", "P-256"), ("RSA", None), ("OKP", "Ed25519"), ("oct", None), ("EC", "P-384")]
+        n = erng.randrange(2, 5)
+        mats, jkeys = [], []
+        for i in range(n):
+            kty, crv = erng.pick(kinds)
+            m = K.make_kind(erng.sub("mixed%d-%d" % (sim.events, i)), kty, crv, {"kid": "mixed-%d" % i})
+            private = kty == "oct" or erng.chance(0.5)
+            mats.append((m, private))
+            jkeys.append(K.to_jose_fast(m, private))
+        res.fired("mixed-private-public-set")
+        res.case(index, sim.events, "mixed-set", tuple(p for _m, p in mats))
+        repro = {"op": "mixed-set", "keys": [rk.to_jwk(m, True) for m, _p in mats], "private": [p for _m, p in mats]}
+        try:
+            doc = KeySet(list(jkeys)).as_dict()
+            each = [j.as_dict() for j in jkeys]
+        except Exception as e:
+            viol("export:mixed-set-failed", "default export of a set of private and public keys failed: %s: %s" % (type(e).__name__, e), repro)
+            return
+        if doc.get("keys") != each:
+            lost = [sorted(set(a) - set(b)) for a, b in zip(each, doc.get("keys", []))]
+            viol("export:key-altered", "the default export of a mixed set does not write every key as the key writes itself (members missing per key: %r)" % lost, repro)
+            return
+        try:
+            back = KeySet.import_key_set(copy.deepcopy(doc))
+        except Exception as e:
+            viol("import-export:keys-differ", "the default export of a mixed set cannot be imported again: %s: %s" % (type(e).__name__, e), repro)
+            return
+        if [k.is_private for k in back.keys] != [p for _m, p in mats] or back.as_dict() != doc:
+            viol("import-export:keys-differ", "importing the exported mixed set does not give every key back as it was", repro)
+
     # ---------------- JWE: peer encrypts to the fetched public set, owner decrypts ----------------
     def mint_jwe(liveness=False):
         peer = erng.pick(peers)
@@ -707,6 +745,7 @@ def _world(rng, tier, index, res, tr, ch):
             sim.at(sim.now + t, generated_set, "generated-set")
             sim.at(sim.now + t + 0.5, shared_secret_jwks, "shared-secret-jwks")
             sim.at(sim.now + t + 0.7, appended_key, "appended-key")
+            sim.at(sim.now + t + 0.8, mixed_set, "mixed-set")
         elif r < 0.58:
             sim.at(sim.now + t, mint_jwe_multi, "mint-jwe-multi")
         elif r < 0.76:
